@@ -8,6 +8,12 @@ netstat_-neopa), TextFileProvider.write of a simple_file spec and DatasourceProv
 oracle looks for *survivors* in the output after masking the substitutes the obfuscators themselves report in
 mapping() (DESIGN.md section 3 rule 5).
 
+Further parts (round 5): "patlists" - exclusion pattern LISTS of 1..2 (thorough 3) structured regular expressions in
+every order (capturing groups, numbered / named back-references, alternation, anchors, inline flag), regex and plain
+form, every entry judged on its own; "repeats" - every sequence of 3..4 (thorough 5) tokens of one kind on a line (MAC,
+IPv4, host names, mixed with IPv6 neighbours), exempted members of the kind in between; "longlines" - 1..12 distinct
+tokens of one kind on a line.
+
 Clauses
   redaction:pattern-line-remains     an output line matches a configured exclusion pattern, or more lines remain
                                      than input lines that match none (the oracle has its own matchers)
@@ -74,7 +80,11 @@ RULE = ("every content of <= 2 lines, each line d0 t1 d1 t2 d2 [t3 d3] with t_i 
         "neutral word) and d_i from the delimiter set D (13 incl. tab and the line boundary) extended by the word "
         "character 'x' (after IPv4 also '_') and, between tokens, by no delimiter at all; x every configuration with <= 1 "
         "deviation from everything-on (incl. an allow-list and system host names of 1, 2, 4, 5 labels); x entry point; plus keyword lists with internal structure "
-        "(12 entries, prefixes, substitute look-alikes), the empty exclusion pattern, the keep-width paths. A case is "
+        "(12 entries, prefixes, substitute look-alikes), the empty exclusion pattern, the keep-width paths; plus exclusion pattern "
+        "LISTS of 1-2 (thorough 3) entries in every order over 8 regular expressions with groups / numbered and named "
+        "back-references / alternation / anchors / an inline flag (each entry judged on its own by a hand-written matcher), "
+        "regex and plain form; plus every sequence of 3-4 (thorough 5) tokens of one kind per line (MAC, IPv4, host names, "
+        "mixed with IPv6 neighbours; exempted members in between) and lines of 1..12 distinct tokens of one kind. A case is "
         "non-trivial when it holds >= 2 sensitive tokens and the cleaner actually rewrote or dropped something")
 ASSUMPTIONS = [
     "bounded: no counterexample with <= 2 (quick; 3 for host-name-only lines) / <= 3 (thorough) tokens per line, <= 2 lines, "
@@ -206,6 +216,145 @@ def keyword_list_variants():
             ["SECRETKW", "keyword0"], ["keyword1", "SECRETKW"]]
 
 
+# ---- exclusion pattern LISTS with internal structure (part "patlists") -------------------------------------------
+# The statement quantifies over "every exclusion pattern list (plain and regular-expression form)" and demands that no
+# line containing A configured pattern remains: each entry of the list is a pattern of its own, whatever the other
+# entries look like.  The atoms below are regular expressions whose meaning is NOT closed under textual combination
+# with other patterns (numbered / named groups and back-references, top-level alternation, anchors, an inline flag):
+# every list of 1 and of 2 distinct atoms in both orders (thorough: also of 3) is configured, in the regular-expression
+# form (each atom means what `re` says it means ALONE) and in the plain form (each atom text is a literal).
+# Per atom: the text, the oracle's own hand-written matcher (no groups, no back-references; cross-checked against the
+# stdlib on every line of the alphabet by _selfcheck(), one pattern at a time) and words (two matching, one near miss).
+_DIGITS = "0123456789"
+
+
+def _m_bref(l):
+    """tk=<quote><one or more word characters><the same quote>"""
+    i = l.find("tk=")
+    while i >= 0:
+        q = l[i + 3:i + 4]
+        if q in ("\"", "'"):
+            j = i + 4
+            while j < len(l) and l[j] in WORD:
+                j += 1
+            if j > i + 4 and l[j:j + 1] == q:
+                return True
+        i = l.find("tk=", i + 1)
+    return False
+
+
+def _m_anch(l):
+    return (l[:2] == "HD" and l[2:3] != "" and l[2:3] in _DIGITS) or (len(l) >= 3 and l[-3:-1] == "TL" and l[-1] in _DIGITS)
+
+
+PAT_ATOMS = [
+    # name, pattern text, oracle matcher, words
+    ("grp", "(AB|CD)=1", lambda l: "AB=1" in l or "CD=1" in l, ["AB=1", "CD=1", "EF=1"]),
+    ("bref", "tk=([\"'])\\w+\\1", _m_bref, ["tk=\"s3\"", "tk='s3'", "tk=\"s3'"]),
+    ("dbl", "([xy])([pq])=\\2\\1", lambda l: any(w in l for w in ("xp=px", "xq=qx", "yp=py", "yq=qy")),
+     ["xp=px", "yq=qy", "xp=xp"]),
+    ("named", "(?P<q>[#%])v\\d(?P=q)", lambda l: any(c + "v" + d + c in l for c in "#%" for d in _DIGITS),
+     ["#v1#", "%v2%", "#v1%"]),
+    ("named2", "(?P<q>[<>])w(?P=q)", lambda l: "<w<" in l or ">w>" in l, ["<w<", ">w>", "<w>"]),
+    ("alt", "LFT1|RGT2", lambda l: "LFT1" in l or "RGT2" in l, ["LFT1", "RGT2", "LFT2"]),
+    ("anch", "^HD\\d|TL\\d$", _m_anch, ["HD5", "TL6", "HDX"]),
+    ("flag", "(?i)mixd", lambda l: "mixd" in l.lower(), ["MiXd", "mixd", "mxd"]),
+]
+PAT_ATOM = dict((a[0], a) for a in PAT_ATOMS)
+PAT_ATOM_NAMES = [a[0] for a in PAT_ATOMS]
+# the words of every atom, then every atom text as a word (what the plain form looks for)
+PAT_WORDS = [w for a in PAT_ATOMS for w in a[3]] + [a[1] for a in PAT_ATOMS]
+PAT_WORD_DELIMS = [("", ""), (" ", " "), ("x", "x")]
+
+
+def patlist_cfg(form, atoms, **kw):
+    return dict(DEFAULT_CFG, pat="list", patlist={"form": form, "atoms": list(atoms)}, **kw)
+
+
+def patlists(tier, first):
+    """the pattern lists that start with atom `first`: length 1, 2 (quick), 3 (thorough) of distinct atoms, ordered"""
+    others = [n for n in PAT_ATOM_NAMES if n != first]
+    out = [[first]] + [[first, b] for b in others]
+    if tier == "thorough":
+        out += [[first, b, c] for b in others for c in others if c != b]
+    return out
+
+
+# ---- more than N of a thing per line (parts "repeats", "longlines") -----------------------------------------------
+# The statement says "repeated, mixed on one line": every sequence of K tokens over a small per-kind alphabet that
+# includes the exempted members of the kind (loopback, all-zero / broadcast, a host of the parent domain) - so that
+# "the first N recognised ones" and "an ignored one uses up a slot" are both in the space - joined by one separator.
+# IPv6 addresses carry no clause of their own (the statement does not name them); they are neighbours in "mix".
+REP_ALPHABET = {
+    "mac": [["mac", "aa:bb:cc:dd:ee:ff"], ["mac", "AA-BB-CC-DD-EE-FF"], ["mac", "52:54:00:aa:03:01"],
+            ["mac", "02-42-ac-11-00-02"], ["mac0", "00:00:00:00:00:00"], ["mac0", "ff:ff:ff:ff:ff:ff"]],
+    "ip": [["ip", "10.1.1.1"], ["ip", "10.1.1.10"], ["ip", "172.16.0.9"], ["ip", "8.8.8.8"], ["lo", "127.0.0.1"],
+           ["ip", "255.255.255.255"]],
+    "host": [["host", host_text(r, FQDN)] for r in HOST_ROLES],
+    "mix": [["ip", "10.1.1.1"], ["lo", "127.0.0.1"], ["mac", "aa:bb:cc:dd:ee:ff"], ["mac0", "ff:ff:ff:ff:ff:ff"],
+            ["host", host_text("@other", FQDN)], ["host", SHORT],
+            ["v6", "fe80::1"], ["v6", "2001:db8:0:1:2:3:4:5"], ["v6", "::1"]],
+}
+REP_SEPS = [" ", ","]
+REP_LEN = {"quick": [3, 4], "thorough": [3, 4, 5]}
+# n distinct tokens of one kind on one line, n = 1 .. LONG_MAX (the substitute counters cross 9 -> 10), optionally with
+# one exempted token of the kind at any position
+LONG_MAX = 12
+LONG_GEN = {
+    "mac": (lambda i: ["mac", "52:54:00:aa:00:%02x" % (i + 1)], ["mac0", "ff:ff:ff:ff:ff:ff"]),
+    "ip": (lambda i: ["ip", "10.2.0.%d" % (i + 1)], ["lo", "127.0.0.1"]),
+    "host": (lambda i: ["host", "n%s.%s" % ("abcdefghijkl"[i], DOMAIN)], ["host", host_text("@parent", FQDN)]),
+}
+
+
+def rep_sequences(kind, k, first=None):
+    al = REP_ALPHABET[kind]
+    heads = range(len(al)) if first is None else [first]
+    for h in heads:
+        for rest in itertools.product(range(len(al)), repeat=k - 1):
+            yield [al[h]] + [al[i] for i in rest]
+
+
+def rep_line(tokens, sep):
+    return mk_line_tok(tokens, [""] + [sep] * (len(tokens) - 1) + [""])
+
+
+def long_lines(kind):
+    gen, exempt = LONG_GEN[kind]
+    for n in range(1, LONG_MAX + 1):
+        toks = [gen(i) for i in range(n)]
+        yield toks
+        for p in range(n + 1):
+            yield toks[:p] + [list(exempt)] + toks[p:]
+
+
+_SELFCHECKED = []
+
+
+def _selfcheck():
+    """Fails loudly when the new alphabets are vacuous or the hand-written pattern matchers disagree with the stdlib
+    (one pattern at a time - the reading of the statement: every configured pattern is a pattern of its own)."""
+    if _SELFCHECKED:
+        return
+    for kind, al in REP_ALPHABET.items():
+        texts = [t[1] for t in al]
+        if len(set(texts)) != len(texts):
+            raise AssertionError("repeats alphabet %s has duplicate members" % kind)
+    for kind in LONG_GEN:
+        texts = [LONG_GEN[kind][0](i)[1] for i in range(LONG_MAX)]
+        if len(set(texts)) != LONG_MAX:
+            raise AssertionError("long-line generator %s repeats itself" % kind)
+    lines = [d0 + w + d2 for w in PAT_WORDS for d0, d2 in PAT_WORD_DELIMS]
+    for name, text, fn, words in PAT_ATOMS:
+        rx = re.compile(text)
+        for l in lines:
+            if bool(fn(l)) != bool(rx.search(l)):
+                raise AssertionError("oracle matcher of pattern atom %s disagrees with re on %r" % (name, l))
+        if not (fn(words[0]) and fn(words[1]) and not fn(words[2])):
+            raise AssertionError("words of pattern atom %s are not match, match, near miss" % name)
+    _SELFCHECKED.append(1)
+
+
 BOUNDS = {
     "quick": {"tokens": NT, "configs": len(configs()), "max_tokens_per_line": "2 (3 on host-name-only lines)", "max_lines": 2,
               "pairs_default_cfg": "d0 in {boundary, space, ':', 'x'}, d1 in D_RED minus boundary + {'', 'x'}, d2 in D_RED + {'x'} "
@@ -228,6 +377,18 @@ BOUNDS = {
               "width": "keep-width paths (width=True, file / spec named netstat_-neopa): singles over D_RED, pairs with an address",
               "patvariants": "pattern list [''] plain and regex: singles and two-line contents, four entry points",
               "kwlists": "8 keyword lists with internal structure: singles and pairs of their keywords",
+              "patlists": "exclusion pattern lists of 1 and of 2 distinct entries (both orders) over %d regular expressions "
+                          "with internal structure (capturing group, numbered back-reference x2, named group + named "
+                          "back-reference x2 with the SAME group name, top-level alternation, anchors, inline flag), regex "
+                          "form and plain form (1-entry lists; 2-entry lists on the all-words content); lines: %d words "
+                          "(match, match, near miss per entry + every entry text as a literal) x 3 neighbourhoods; "
+                          "one content holding all words; clean_content list/str/2 calls, clean_file, both provider writes"
+                          % (len(PAT_ATOMS), len(PAT_WORDS)),
+              "repeats": "every sequence of 3 and of 4 tokens of ONE kind on a line: MAC (4 + all-zero + broadcast), IPv4 "
+                         "(5 + loopback), host names (6 roles + parent-domain host), and mixed (IPv4, loopback, MAC, "
+                         "broadcast, 2 host names, 3 IPv6 addresses as neighbours); separator space / ',' (length 4: space)",
+              "longlines": "1..%d DISTINCT tokens of one kind (MAC, IPv4, host of the domain) on a line, alone and with one "
+                           "exempted token of the kind at every position; separator space / ','; four entry points" % LONG_MAX,
               "D_RED": D_RED},
     "thorough": {"tokens": NT, "configs": len(configs()), "max_tokens_per_line": 3, "max_lines": 2,
                  "pairs_default_cfg": "d0,d2 in full D (13) + 'x' (after IPv4 also '_'), d1 in full D minus boundary + {'', 'x'}; "
@@ -240,7 +401,9 @@ BOUNDS = {
                                           "four entry points",
                  "triples_default_cfg": "all 34^3 token triples, d0,d3 in {boundary, space, ':'} (+ 'x','_' after IPv4), d1,d2 in "
                                         "D_RED minus boundary + ''; clean_content",
-                 "width/patvariants/kwlists": "as in quick",
+                 "width/patvariants/kwlists/longlines": "as in quick",
+                 "patlists": "as in quick plus every list of 3 distinct entries (all orders), regex form",
+                 "repeats": "as in quick plus every sequence of 5 tokens (separator space)",
                  "D_RED": D_RED, "D_FULL": D_FULL},
 }
 CAP_S = {"quick": 300, "thorough": 3600}
@@ -295,7 +458,10 @@ class _Config(object):
 
 def build_cleaner(cfg, scratch=None):
     from insights.cleaner import Cleaner
-    if cfg["pat"] in PAT_VARIANTS:
+    if cfg["pat"] == "list":
+        texts = [PAT_ATOM[a][1] for a in cfg["patlist"]["atoms"]]
+        pats = texts if cfg["patlist"]["form"] == "plain" else {"regex": texts}
+    elif cfg["pat"] in PAT_VARIANTS:
         pats = PAT_VARIANTS[cfg["pat"]]
         pats = list(pats) if isinstance(pats, list) else {"regex": list(pats["regex"])}
     else:
@@ -423,6 +589,12 @@ def _host_in_domain(domain):
 
 
 def _matches(cfg, line):
+    if cfg["pat"] == "list":
+        # a line contains a configured pattern when it contains ANY ONE entry, each entry read on its own: as a
+        # literal (plain form) / as the regular expression it is alone (the atom's hand-written matcher)
+        if cfg["patlist"]["form"] == "plain":
+            return any(PAT_ATOM[a][1] in line for a in cfg["patlist"]["atoms"])
+        return any(PAT_ATOM[a][2](line) for a in cfg["patlist"]["atoms"])
     if cfg["pat"] in PAT_VARIANTS:
         return True                     # the empty pattern: contained in / found in every line
     fs = _ORACLE_PLAIN if cfg["pat"] == "plain" else _ORACLE_REGEX
@@ -849,6 +1021,17 @@ def units(tier, seed):
     us.append({"part": "width"})
     us.append({"part": "patvariants"})
     us.append({"part": "kwlists"})
+    _selfcheck()
+    for a in PAT_ATOM_NAMES:
+        us.append({"part": "patlists", "first": a})
+    for kind in sorted(REP_ALPHABET):
+        for k in REP_LEN[tier]:
+            if k <= 3:
+                us.append({"part": "repeats", "kind": kind, "k": k, "first": None})
+            else:
+                for h in range(len(REP_ALPHABET[kind])):
+                    us.append({"part": "repeats", "kind": kind, "k": k, "first": h})
+    us.append({"part": "longlines"})
     return us
 
 
@@ -871,6 +1054,9 @@ def run_unit(unit, tier):
             npath[path] = npath.get(path, 0) + 1
             if nontrivial:
                 res.nontrivial += 1
+            if part in ("patlists", "repeats", "longlines"):
+                # many tokens / lines per case: the fingerprint is the SET of token statuses (kept coarse)
+                outcome = "+".join(sorted(set(outcome.split("+"))))
             res.outcomes.add(outcome)
             for c, e, o, f in vio:
                 res.violation(c, {"path": path, "cfg": cfg, "lines": structs}, e, o, f)
@@ -995,6 +1181,47 @@ def run_unit(unit, tier):
                             go("file", cfg, st)
             res.samples.append({"path": "content", "cfg": dict(DEFAULT_CFG, kw=keyword_list_variants()[0]),
                                 "lines": [mk_line_tok([["kw", "K1"], ["kw", "K10"]], ["", " ", ""])]})
+        elif part == "patlists":
+            _selfcheck()
+            everything = [mk_line_tok([["pat", w]], ["", ""]) for w in PAT_WORDS]
+            for atoms in patlists(tier, unit["first"]):
+                n = len(atoms)
+                for form in ("regex", "plain"):
+                    if form == "plain" and n > 2:
+                        continue
+                    cfg = patlist_cfg(form, atoms)
+                    # one content holding every word (the earlier lines' verdicts must not leak into the later ones')
+                    for c2 in (cfg, patlist_cfg(form, atoms, obf=0)):
+                        for path in ("content", "content-2calls", "file", "write", "dswrite"):
+                            go(path, c2, everything)
+                    if form == "plain" and n > 1:
+                        continue
+                    paths = ("content", "content-str", "file", "write") if n == 1 else ("content", "file")
+                    for w in PAT_WORDS:
+                        for d0, d2 in PAT_WORD_DELIMS:
+                            st = [mk_line_tok([["pat", w]], [d0, d2])]
+                            for path in paths:
+                                go(path, cfg, st)
+            res.samples.append({"path": "content", "cfg": patlist_cfg("regex", ["grp", "bref"]),
+                                "lines": [mk_line_tok([["pat", "tk=\"s3\""]], ["", ""])]})
+        elif part == "repeats":
+            _selfcheck()
+            cfg = cfgs[0]
+            seps = REP_SEPS if unit["k"] <= 3 else REP_SEPS[:1]
+            for toks in rep_sequences(unit["kind"], unit["k"], unit["first"]):
+                for sep in seps:
+                    go("content", cfg, [rep_line(toks, sep)])
+            res.samples.append({"path": "content", "cfg": cfg,
+                                "lines": [rep_line(next(rep_sequences(unit["kind"], unit["k"], unit["first"])), " ")]})
+        elif part == "longlines":
+            _selfcheck()
+            cfg = cfgs[0]
+            for kind in sorted(LONG_GEN):
+                for toks in long_lines(kind):
+                    for sep in REP_SEPS:
+                        st = [rep_line(toks, sep)]
+                        for path in ("content", "content-str", "file", "write"):
+                            go(path, cfg, st)
         else:
             raise ValueError(part)
     finally:
@@ -1002,8 +1229,11 @@ def run_unit(unit, tier):
     for k, n in npath.items():
         res.stat("cases_via_" + k, n)
     res.stat("cases_in_" + part, res.evals)
-    res.maxi("tokens_per_line", {"singles": 1, "twolines": 1, "patvariants": 1, "triples": 3, "hosttriples": 3}.get(part, 2))
-    res.maxi("lines_per_content", 2 if part in ("twolines", "patvariants") else 1)
+    res.maxi("tokens_per_line", {"singles": 1, "twolines": 1, "patvariants": 1, "triples": 3, "hosttriples": 3, "patlists": 1,
+                                 "repeats": unit.get("k"), "longlines": LONG_MAX + 1}.get(part, 2))
+    res.maxi("lines_per_content", 2 if part in ("twolines", "patvariants") else (len(PAT_WORDS) if part == "patlists" else 1))
+    if part == "patlists":
+        res.maxi("patterns_per_list", 3 if tier == "thorough" else 2)
     return res
 
 
@@ -1012,8 +1242,9 @@ TECHNIQUE = ("bounded exhaustive enumeration of token/delimiter lines x single-d
 LEVEL_TEXT = ("Every line of <= 2 (quick) / <= 3 (thorough) sensitive tokens over 34 tokens and 13 delimiters (+ word-character neighbours and no delimiter), every content "
               "of <= 2 such lines, under every configuration one switch / one per-spec exemption / one pattern form / one "
               "host-name form away from everything-on, is cleaned by the real code through clean_content, clean_file and "
-              "the provider write path, and the output is searched for survivors. No sampling; the claim is 'no survivor "
-              "within the bound'.")
+              "the provider write path, and the output is searched for survivors. Pattern lists of up to 2 (3) structured "
+              "regular expressions in every order and lines repeating up to 4 (5) tokens of one kind / holding up to 12 "
+              "distinct ones are covered the same way. No sampling; the claim is 'no survivor within the bound'.")
 LEVEL_NOTE = ("Trusted: the substitute lists of mapping() (their consistency is C09), the tree's own obfuscator order (C10). "
               "Not demanded: tokens glued to word characters, leading zeros, upper-case host spellings, secrets outside the "
               "documented class, a password key inside an earlier secret run, IPv6.")
